@@ -43,7 +43,7 @@ func init() { register("C19", runC19) }
 
 // LockStep is one step of a process schedule.
 type LockStep struct {
-	Op     string   `json:"op"`             // start | run | signal | reap | observe | occupy | race | fault | park | resume | await
+	Op     string   `json:"op"`             // start | run | signal | reap | observe | occupy | race | fault | park | resume | await | phase | stop | cont | steer | settle | drain
 	P      string   `json:"p,omitempty"`    // process label
 	Cmd    string   `json:"cmd,omitempty"`  // command class (see c19Command)
 	Wait   string   `json:"wait,omitempty"` // start: ready | resolved (ready or exited) | building | none
@@ -54,7 +54,10 @@ type LockStep struct {
 	Tag    string   `json:"tag,omitempty"`
 	Uid    int      `json:"uid,omitempty"`     // start/run: run the process under this (unprivileged) uid and gid; 0 = the harness's own
 	Guard  string   `json:"guard,omitempty"`   // run: label of the live holder; stop waiting as soon as the lock file no longer holds its pid
-	IfLive bool     `json:"if_live,omitempty"` // signal: skip when the process has already been reaped
+	IfLive bool     `json:"if_live,omitempty"` // signal, stop: skip when the process has already been reaped
+	Via    string   `json:"via,omitempty"`     // stop: sigstop | ptrace
+	Dur    string   `json:"dur,omitempty"`     // steer: how long (at most) to let time pass
+	Hold   string   `json:"hold,omitempty"`    // start: run under the system-call tracer, one thread to be held at: liveness | cleanup
 }
 
 // LockSchedule is one replayable case.
@@ -66,6 +69,7 @@ type LockSchedule struct {
 	Port     int        `json:"port"`
 	Steps    []LockStep `json:"steps"`
 	Shape    string     `json:"shape"`
+	Mode     string     `json:"mode,omitempty"` // ho-held: liveness | cleanup (chosen by the position in the list)
 }
 
 type c19Cmd struct {
@@ -147,6 +151,10 @@ var c19Pattern = []string{
 	"torn", "failing", "chain", "build", "contend",
 	// (the first 25 entries are the quick list of the first build round; kept in place)
 	"created", "xuid", "created", "xuid", "created", "xuid",
+	// (31 entries up to here: second round; kept in place)
+	"ho-race", "stopped", "ho-freeze", "traced", "ho-chain", "stopped",
+	"ho-race", "stopped", "ho-freeze", "traced", "ho-stale", "ho-race",
+	"ho-held", "ho-held",
 }
 
 // the two unprivileged accounts of the cross-uid schedules (no passwd entry needed)
@@ -362,6 +370,15 @@ func c19Schedule(seed int64, i int) LockSchedule {
 			runAs("A1", class, c19UidB, "")
 			shape = append(shape, "a:"+class)
 		}
+	case "stopped":
+		shape = c19SuspendedSchedule(&s, rng, "sigstop")
+	case "traced":
+		shape = c19SuspendedSchedule(&s, rng, "ptrace")
+	case "ho-race", "ho-freeze", "ho-chain", "ho-stale":
+		shape = c19HandoverSchedule(&s, rng, strings.TrimPrefix(kind, "ho-"))
+	case "ho-held":
+		s.Mode = []string{"liveness", "cleanup"}[(i%len(c19Pattern))%2]
+		shape = c19HeldSchedule(&s, rng)
 	case "zombie":
 		sig := "SIGKILL"
 		add(LockStep{Op: "start", P: "H", Cmd: "webui", Wait: "ready", Lazy: true}, LockStep{Op: "observe", Tag: "holder ready"},
@@ -427,6 +444,7 @@ type c19Proc struct {
 	werr   error
 	// what the executor already logged
 	loggedBuilding, loggedReady, loggedExit, signalled bool
+	loggedIndex                                        bool // proof "index" logged (hand-over schedules)
 	stopped                                            bool // SIGSTOP sent and not yet SIGCONT
 }
 
@@ -468,6 +486,13 @@ type c19Exec struct {
 	nproc  int
 	lns    []net.Listener
 	res    *C19Result
+	// second part (c19_handover.go)
+	tracers  map[string]*c19Tracer
+	holders  map[string]*c19Holder
+	holdNext bool         // the next spawn goes through the self-stopping shell
+	inLock   map[int]bool // pids seen in the lock file by watchOpeners
+	repoReal string       // e.repo with symbolic links resolved (as /proc shows paths)
+	nlong    int          // long-lived processes spawned so far
 }
 
 const c19Watchdog = 60 * time.Second
@@ -619,6 +644,14 @@ func c19AsUid(cmd *exec.Cmd, dir string, uid int) {
 func (e *c19Exec) spawn(label, class, delays string, lazy bool, uid int) (*c19Proc, error) {
 	e.nproc++
 	port := e.sc.Port + e.nproc
+	switch e.sc.Kind {
+	case "stopped", "traced", "ho-race", "ho-freeze", "ho-chain", "ho-stale", "ho-held":
+		// many processes: only those that listen get a port of the schedule's range
+		if c19Command(class, 0).long {
+			e.nlong++
+		}
+		port = e.sc.Port + e.nlong
+	}
 	if class == "webui-busy-port" {
 		port = e.sc.Port // the port the harness occupies
 	}
@@ -628,6 +661,11 @@ func (e *c19Exec) spawn(label, class, delays string, lazy bool, uid int) (*c19Pr
 		// shared repository: no umask (the shell execs git-bug, the pid stays), everything made so far opened up
 		cmd = exec.Command("/bin/sh", append([]string{"-c", `umask 0; exec "$0" "$@"`, e.bin}, spec.argv...)...)
 		openToAll(e.dir)
+	}
+	if e.holdNext {
+		// the shell stops itself, is attached to by the tracer, and then execs git-bug (the pid stays)
+		e.holdNext = false
+		cmd = exec.Command("/bin/sh", append([]string{"-c", `kill -STOP $$; exec "$0" "$@"`, e.bin}, spec.argv...)...)
 	}
 	cmd.Dir = e.repo
 	cmd.Env = os.Environ()
@@ -650,11 +688,26 @@ func (e *c19Exec) spawn(label, class, delays string, lazy bool, uid int) (*c19Pr
 		realUid = uid
 	}
 	e.log(refmodel.LockEvent{Kind: "spawn", Proc: p.id, Pid: p.pid, Class: spec.class, Argv: "git-bug " + strings.Join(spec.argv, " "),
-		Opens: spec.opens, Benign: spec.benign, Delays: delays, Uid: realUid})
+		Opens: spec.opens, Benign: spec.benign, Delays: delays, Uid: realUid, Long: spec.long})
 	if !lazy {
 		p.startWait()
 	}
 	return p, nil
+}
+
+// hasIndexOpen says whether process pid has a file below <repo>/.git/git-bug/indexes/ open (Linux /proc).
+func hasIndexOpen(pid int, repo string) bool {
+	fds, err := os.ReadDir(fmt.Sprintf("/proc/%d/fd", pid))
+	if err != nil {
+		return false
+	}
+	prefix := filepath.Join(repo, ".git", "git-bug", "indexes") + "/"
+	for _, fd := range fds {
+		if l, err := os.Readlink(fmt.Sprintf("/proc/%d/fd/%s", pid, fd.Name())); err == nil && strings.HasPrefix(l, prefix) {
+			return true
+		}
+	}
+	return false
 }
 
 // ownsListener says whether process pid owns a listening TCP socket on port (Linux /proc).
@@ -696,6 +749,11 @@ func (e *c19Exec) progress(p *c19Proc) string {
 	if !p.loggedReady && p.spec.long && strings.Contains(p.out.String(), "Web UI: http") && ownsListener(p.pid, p.port) {
 		p.loggedReady = true
 		e.log(refmodel.LockEvent{Kind: "proof", Proc: p.id, Pid: p.pid, Stage: "ready"})
+	}
+	if !p.loggedIndex && !p.loggedReady && strings.HasPrefix(e.sc.Kind, "ho-") && !p.exited() && hasIndexOpen(p.pid, e.repoReal) {
+		// (hand-over schedules) the process has a file of the cache's indexes open: those are opened after lock() only
+		p.loggedIndex = true
+		e.log(refmodel.LockEvent{Kind: "proof", Proc: p.id, Pid: p.pid, Stage: "index"})
 	}
 	switch {
 	case p.loggedReady:
@@ -744,7 +802,9 @@ func (e *c19Exec) await(what string, ps []*c19Proc, cond func() bool) bool {
 	tick := time.NewTicker(5 * time.Millisecond)
 	defer tick.Stop()
 	for {
-		for _, p := range ps {
+		// every process of the schedule is looked at, in the order of their start, so that the log
+		// has the exit of one before the proof of a later one whenever that is what happened
+		for _, p := range e.procsInOrder() {
 			e.progress(p)
 			if p.exited() {
 				e.progress(p)
@@ -761,6 +821,15 @@ func (e *c19Exec) await(what string, ps []*c19Proc, cond func() bool) bool {
 		case <-tick.C:
 		}
 	}
+}
+
+func (e *c19Exec) procsInOrder() []*c19Proc {
+	out := make([]*c19Proc, 0, len(e.procs))
+	for _, p := range e.procs {
+		out = append(out, p)
+	}
+	sort.Slice(out, func(i, j int) bool { return out[i].id < out[j].id })
+	return out
 }
 
 func (e *c19Exec) signal(p *c19Proc, sig string) {
@@ -793,6 +862,14 @@ func (e *c19Exec) lockContent() string {
 }
 
 func (e *c19Exec) cleanup() {
+	for l, t := range e.tracers {
+		t.release()
+		delete(e.tracers, l)
+	}
+	for l, h := range e.holders {
+		h.kill()
+		delete(e.holders, l)
+	}
 	for _, p := range e.procs {
 		if !p.exited() {
 			_ = p.cmd.Process.Kill()
@@ -829,6 +906,11 @@ func c19Traversable(dir string) string {
 	}
 	return ""
 }
+
+var (
+	c19PtraceOnce   sync.Once
+	c19PtraceReason string // "" = a tracer can be attached here
+)
 
 var (
 	c19XuidOnce   sync.Once
@@ -897,6 +979,12 @@ func runLockSchedule(sc LockSchedule) (res C19Result) {
 			return
 		}
 	}
+	if sc.Kind == "traced" {
+		if why := c19PtracePreflight(); why != "" {
+			res.NotReached = "traced-holder schedule not exercised: " + why
+			return
+		}
+	}
 	dir := world.ScratchDir("c19-")
 	defer os.RemoveAll(dir)
 	if err := c19Setup(dir, sc.Identity, sc.Bugs); err != nil {
@@ -912,7 +1000,12 @@ func runLockSchedule(sc LockSchedule) (res C19Result) {
 		}
 		openToAll(dir)
 	}
-	e := &c19Exec{sc: sc, dir: dir, repo: filepath.Join(dir, "repo"), bin: filepath.Join(os.Getenv("VERIF_BIN"), "git-bug"), procs: map[string]*c19Proc{}, res: &res}
+	e := &c19Exec{sc: sc, dir: dir, repo: filepath.Join(dir, "repo"), bin: filepath.Join(os.Getenv("VERIF_BIN"), "git-bug"), procs: map[string]*c19Proc{}, res: &res, tracers: map[string]*c19Tracer{}, holders: map[string]*c19Holder{}, inLock: map[int]bool{}}
+	if real, err := filepath.EvalSymlinks(e.repo); err == nil {
+		e.repoReal = real
+	} else {
+		e.repoReal = e.repo
+	}
 	defer func() {
 		e.cleanup()
 		res.Events = e.events
@@ -943,9 +1036,13 @@ func runLockSchedule(sc LockSchedule) (res C19Result) {
 			}
 			e.lns = append(e.lns, l)
 		case "start", "run":
+			e.holdNext = st.Hold != ""
 			p, err := e.spawn(st.P, st.Cmd, st.Delays, st.Lazy, st.Uid)
 			if err != nil {
 				res.Inconclusive = "spawn: " + err.Error()
+				return
+			}
+			if st.Hold != "" && !e.stepExtra(LockStep{Op: "hold-attach", P: st.P, Hold: st.Hold}) {
 				return
 			}
 			wait := st.Wait
@@ -1087,6 +1184,10 @@ func runLockSchedule(sc LockSchedule) (res C19Result) {
 				e.await("Y to be reaped", both, func() bool { return y.loggedExit })
 				e.observe("Y closed")
 			}
+		default:
+			if !e.stepExtra(st) {
+				return
+			}
 		}
 	}
 	return
@@ -1194,6 +1295,39 @@ func runC19(tier, replay string) int {
 			r.Count("created_window/attempt_outcome/"+k, v)
 		}
 		r.Count("cross_uid/attempts_against_a_proven_holder_of_another_uid", st.CrossUidAttempts)
+		for k, v := range st.SuspendedHolders {
+			r.Count("suspended_holder/"+k+"/proven_holders_suspended(every thread seen stopped in /proc)", v)
+		}
+		for k, v := range st.SuspendedHolderAttempts {
+			r.Count("suspended_holder/"+k+"/open_attempts_while_suspended", v)
+		}
+		for k, v := range st.SuspendedHolderOutcomes {
+			r.Count("suspended_holder/attempt_outcome/"+k, v)
+		}
+		r.Count("suspended_holder/lock_file_checks_while_suspended", st.SuspendedHolderChecks)
+		r.Count("handover/openers_frozen_by_the_harness(SIGSTOP, every thread seen stopped)", st.SuspendedOpeners)
+		for k, v := range st.HeldOpeners {
+			r.Count("handover/openers_with_a_thread_held_before_their_"+k+"_call", v)
+		}
+		r.Count("handover/holder_signalled_with_openers_on_their_way", st.HandoverSignals)
+		r.Count("handover/openers_on_their_way_at_the_holder's_signal", st.HandoverRacers)
+		for k, v := range st.HandoverOutcomes {
+			r.Count("handover/outcome_of_openers_on_their_way/"+k, v)
+		}
+		if st.HandoverMaxRace > 0 {
+			r.Seen("handover/openers_on_their_way_at_one_signal", strconv.Itoa(st.HandoverMaxRace))
+		}
+		r.Count("handover/openers_started_under_a_live_holder_and_granted_after_its_end", st.GrantedAfterEnd)
+		if strings.HasPrefix(sc.Kind, "ho-") {
+			for k, v := range res.Outcomes {
+				if strings.HasPrefix(k, "frozen:") {
+					r.Count("handover/frozen_opener/"+v, 1)
+				}
+				if strings.HasPrefix(k, "held:") {
+					r.Count("handover/held_opener/"+v, 1)
+				}
+			}
+		}
 		if sc.Kind == "created" {
 			if a := res.Outcomes["A:webui"]; a != "" {
 				r.Seen("created_window_creator_after_resume", a)
@@ -1234,6 +1368,10 @@ func runC19(tier, replay string) int {
 				r.Count("toctou_window_not_reproduced", 1)
 			}
 		}
+		if len(findings) > 0 {
+			r.Count("schedules_with_findings/"+sc.Kind, 1)
+			r.Seen("schedules_with_findings", sc.Name+" "+sc.Shape)
+		}
 		for _, f := range findings {
 			r.Violation(f.Key, fmt.Sprintf("%s [schedule %s, event %d]", f.What, sc.Name, f.Seq), map[string]any{"schedule": sc, "events": trimEvents(res.Events)})
 		}
@@ -1250,7 +1388,14 @@ func runC19(tier, replay string) int {
 			r.Extra("cross_uid", "exercised: "+c19XuidProbe)
 		}
 	}
-	for _, kind := range []string{"created", "xuid"} {
+	if perKind["traced"] > 0 {
+		if why := c19PtracePreflight(); why != "" {
+			r.Extra("traced_holder", "NOT EXERCISED: "+why)
+		} else {
+			r.Extra("traced_holder", "exercised: a tracer (vh child c19-ptrace) attaches to every thread of the holder and keeps them in a tracing stop (state t)")
+		}
+	}
+	for _, kind := range []string{"created", "xuid", "traced"} {
 		if n := notReached[kind]; n > 0 {
 			// a harness message, not a verdict: the schedules are left out of the counts
 			fmt.Printf("HARNESS-NOTE property=C19 %d of %d %q schedules did not reach the situation they are about and were not counted (see schedules_not_reached in the evidence)\n", n, perKind[kind], kind)
@@ -1261,13 +1406,20 @@ func runC19(tier, replay string) int {
 		"chain (successful commands incl. wipe, lock check after each), torn (empty lock file as left by a kill between create and write, then openers), toctou (two openers started together, delayed at cache.lock.window by 1.2 s and 4 s, so both pass the availability check before either creates the lock), zombie (informational), "+
 		"created (an opener delayed at cache.lock.created and then stopped with SIGSTOP while the lock file it created is still empty; 1..2 other openers incl. long-lived ones run meanwhile; it is resumed and must be the only one granted the cache; the lock file is checked while it is parked), "+
 		"xuid (holder under one account or root, openers under another unprivileged account for which kill(holder,0) is EPERM, repository writable by all; same refusal / unchanged / stale-lock recovery rules); "+
+		"stopped / traced (a ready web UI holder is suspended — SIGSTOP, every thread seen in state T; or a tracer attached to every thread, state t — while 1..2 openers incl. long-lived ones try; it is then released and closed, or killed while suspended; openers also after the release and after the end); "+
+		"ho-race / ho-freeze / ho-chain / ho-stale (hand-over: ready holder + 2..3 openers started 0..35 ms apart, mostly long-lived; race = the holder is signalled 0..320 ms after their start, optionally one more opener right after the signal; freeze = one opener is stopped with SIGSTOP at that moment, the holder closed and reaped, a fresh opener started, one of the others waited for, then the frozen one released; "+
+		"chain = the first openers get 320 ms to be turned away, the holder is signalled and two fresh openers started at once; stale = holder killed and reaped, then the openers started together; then every opener that becomes ready is observed, signalled, reaped, observed, until all are gone, and a last command must find the cache free); "+
+		"ho-held (a long-lived opener is run under a small system-call tracer, `vh child c19-hold`, which keeps ONE of its threads at the entry of the call by which it asks the kernel whether the pid it read from the lock file is alive — pidfd_open(pid)/kill(pid,0) — or, the holder having been killed before, at the entry of its unlink of the lock file; meanwhile the holder closes or is killed and is reaped and another long-lived opener is started and waited for; then the thread is let go, the lock file watched until it changes or the opener resolves, and the openers drained as above); "+
 		"the recorded event log is checked offline by refmodel.CheckLockLog; non-trivial = at least 2 resolved open attempts and 2 observations; distinct = distinct schedule shape (kind, holder, contender classes, signal, later openers)",
 		r.Pick(12, 60), []string{
 			"a process is taken to hold the cache from the moment it printed the cache-build banner or (web UI) its URL while owning its listening socket, until the harness signals it or it is reaped",
 			"a command that exits 0 is taken to have opened the cache",
-			"hook delays (VERIF_HOOK_DELAYS) only steer; no verdict depends on elapsed time",
+			"hook delays (VERIF_HOOK_DELAYS), the steering pauses of the hand-over schedules and the freezing of an opener only steer; no verdict depends on elapsed time",
+			"a process every thread of which is stopped (state T or t in /proc) is alive and keeps what it holds",
+			"a short-lived command that runs freely is only taken to hold the cache at the observations that show its pid in the lock file while it has not been reaped; a long-lived one (web UI) from its first proof until it is signalled or reaped",
 			"a process stopped with SIGSTOP (all threads seen in state T) while the lock file exists and is empty, being the only live process of the schedule and the file being absent before its start, is a live process between its exclusive creation of the lock file and its pid write; that file is its lock",
-			"created / xuid schedules whose situation cannot be produced (hook point absent from the build, accounts not separable in this environment) are reported as not reached and left out of the counts",
+			"created / xuid / traced / ho-held schedules whose situation cannot be produced (hook point absent from the build, accounts not separable or no tracer attachable in this environment) are reported as not reached and left out of the counts",
+			"a thread kept by a tracer at the entry of a system call has not made that call; holding it there is an environment action (a thread can be held up anywhere, for any time) and nothing is derived from it but the suffix of the finding key",
 		})
 }
 
